@@ -14,6 +14,7 @@ import warnings
 from collections import Counter
 from fractions import Fraction
 
+sys.set_int_max_str_digits(0)      # exact rationals of deep models can have thousands of digits
 ROOT = os.path.dirname(os.path.dirname(os.path.abspath(__file__)))
 LEAN = os.path.join(ROOT, "lean")
 DRIVER = os.path.join(LEAN, ".lake", "build", "bin", "rpydriver")
